@@ -194,6 +194,7 @@ class UARTDataPacket(object):
         (ch_spec_word,) = struct.unpack_from("<I", mybuffer)
         ts_present = bool(ch_spec_word >> 31)
         offset = 4
+        self.uartwords = []
         while abs(offset - len(mybuffer)) > 4:
             udw = UARTDataWord(self._ipts_source, self.data_endianness)
             offset += udw.unpack(mybuffer[offset:])
